@@ -210,11 +210,11 @@ def invariant_raise_site(run, model, rule="C09.raise-site"):
 
 
 def run(run, model):
-    dispatch_table(run, model)
-    validate_tables(run, model)
-    base_rule(run, model)
-    invariant_raise_site(run, model)
-    select.selector_rules(run, model, "C09.factory-args", which=("error",))
+    run.do(dispatch_table, model)
+    run.do(validate_tables, model)
+    run.do(base_rule, model)
+    run.do(invariant_raise_site, model)
+    run.do(select.selector_rules, model, "C09.factory-args", which=("error",))
     from . import gates
     # the values produced by the dispatch reach the caller unchanged: gates of PRE / POST raise the helper's value
     for role, ck in gates.checkers(model).items():
